@@ -82,11 +82,14 @@ type reflEngine struct {
 	pure   map[string]Val
 	calls  []rangeCall
 	unit   *Unit
+	views  map[string]PtrV   // repr of a ProtoReflect() result -> the message pointer it is the view of
+	ifaces map[string]IfaceV // repr of a protoreflect.Message value -> its Interface() result
 }
 
 type rangeCall struct {
 	guard string
 	fdVar string
+	key   Val
 	val   Val
 	ret   string
 	pos   string
@@ -157,7 +160,22 @@ func (e *reflEngine) hook(c *Ctx, call *ast.CallExpr, st *State) ([]Val, bool) {
 					k += "," + valRepr(av)
 				}
 			}
-			return []Val{e.pureVal(st, k+")", c.info.TypeOf(call))}, true
+			res := e.pureVal(st, k+")", c.info.TypeOf(call))
+			if iv, ok := res.(IfaceV); ok && fn.Name() == "Interface" && len(call.Args) == 0 {
+				if e.ifaces == nil {
+					e.ifaces = map[string]IfaceV{}
+				}
+				e.ifaces[valRepr(recv)] = iv
+			}
+			return []Val{res}, true
+		}
+	}
+	if isSel && fn != nil && fn.Name() == "Number" && len(call.Args) == 0 && c.prog.inRepo(fn) {
+		// generated enum method `func (x E) Number() protoreflect.EnumNumber { return protoreflect.EnumNumber(x) }`: its body is executed
+		if fd := c.prog.funcDecl(fn); fd != nil && fd.Body != nil {
+			if _, isScalar := c.eval(sel.X, st).(Scalar); isScalar {
+				return c.inlineDecl(fd, fn, call, st), true
+			}
 		}
 	}
 	if isSel && fn != nil {
@@ -166,7 +184,20 @@ func (e *reflEngine) hook(c *Ctx, call *ast.CallExpr, st *State) ([]Val, bool) {
 		case "ProtoReflect", "Descriptor", "Type", "Interface":
 			if c.prog.inRepo(fn) || strings.HasPrefix(fn.Pkg().Path(), "google.golang.org/protobuf") {
 				recv := c.eval(sel.X, st)
-				return []Val{e.pureVal(st, key+"("+valRepr(recv)+")", c.info.TypeOf(call))}, true
+				res := e.pureVal(st, key+"("+valRepr(recv)+")", c.info.TypeOf(call))
+				if p, ok := recv.(PtrV); ok && fn.Name() == "ProtoReflect" {
+					if e.views == nil {
+						e.views = map[string]PtrV{}
+					}
+					e.views[valRepr(res)] = p
+				}
+				if iv, ok := res.(IfaceV); ok && fn.Name() == "Interface" {
+					if e.ifaces == nil {
+						e.ifaces = map[string]IfaceV{}
+					}
+					e.ifaces[valRepr(recv)] = iv
+				}
+				return []Val{res}, true
 			}
 		}
 	}
@@ -174,13 +205,23 @@ func (e *reflEngine) hook(c *Ctx, call *ast.CallExpr, st *State) ([]Val, bool) {
 	if id, ok := call.Fun.(*ast.Ident); ok && id.Name == "f" && len(call.Args) == 2 {
 		if _, isParam := c.objOf(id).(*types.Var); isParam {
 			fdv := types.ExprString(call.Args[0])
+			kv := c.eval(call.Args[0], st)
 			v := c.eval(call.Args[1], st)
 			r := c.freshRaw("cb", "Bool")
-			e.calls = append(e.calls, rangeCall{guard: st.guard, fdVar: fdv, val: v, ret: r, pos: c.pos(call.Pos())})
+			e.calls = append(e.calls, rangeCall{guard: st.guard, fdVar: fdv, key: kv, val: v, ret: r, pos: c.pos(call.Pos())})
 			return []Val{Scalar{r, boolSort}}, true
 		}
 	}
 	return nil, false
+}
+
+// assertHook: value.Interface().(string) on a protoreflect.Value is value.String() when the assertion succeeds
+func (e *reflEngine) assertHook(v Val, target types.Type, st *State) (Val, string, bool) {
+	rv, ok := v.(RVal)
+	if !ok || rv.Kind != "?iface" || !isString(target) {
+		return nil, "", false
+	}
+	return e.valueAccessor(st, RVal{Kind: "?", Id: rv.Id}, "String", target), e.c.freshRaw("tyok", "Bool"), true
 }
 
 func (e *reflEngine) valueAccessor(st *State, r RVal, name string, t types.Type) Val {
@@ -453,10 +494,20 @@ func reflUnit(prog *Program, ms *MsgSchema, method, full string, o reflOpts, nil
 		}
 	}
 	c.callHook = e.hook
+	c.assertHook = e.assertHook
 	c.assumeAsserts = method == "Set" // Set may panic on a value of the wrong Go type (caller error)
 	c.noSafeNil = method == "Set"     // … and on a nil / read-only empty list or map view
 	c.nilPanics = nilRecv && !readOnlyMethods[method]
 	var before map[string]Val
+	if !nilRecv && method == "Set" {
+		// the heap locations of the list/map wrappers a caller may pass in exist before the entry state is copied
+		for _, w := range wrapperTypes(ms) {
+			wp := PtrV{Ref: c.freshRaw("anywrapper", "Int"), Named: w.named}
+			if cp, ok := c.loadField(st, wp, w.cellF).(PtrV); ok {
+				c.loadCell(st, cp)
+			}
+		}
+	}
 	if !nilRecv {
 		before = e.snapshot(st)
 		// domain: a oneof holds nil or a non-nil wrapper (typed-nil wrappers are the separate finding D8)
@@ -746,7 +797,26 @@ func (e *reflEngine) setValueMatches(f reflField, cur Val, conv func(acc string,
 		return "(= " + cur.(Scalar).T + " " + v.T + ")"
 	}
 	if f.f.IsMap || f.f.Rep {
-		// x.F = *v.(wrapper).cell : the field becomes the content of the wrapper's cell; identity of the cell is checked structurally
+		// x.F = *v.(wrapper).cell : the field becomes the content of the location the passed view points at
+		for _, w := range wrapperTypes(e.ms) {
+			if w.f != f.f {
+				continue
+			}
+			acc := "List"
+			if w.isMap {
+				acc = "Map"
+			}
+			lv, ok := e.valueAccessor(r.St, rv, acc, nil).(IfaceV)
+			if !ok {
+				return "false"
+			}
+			wp := PtrV{Ref: lv.Ref, Named: w.named}
+			cp, ok := c.loadField(c.entry, wp, w.cellF).(PtrV)
+			if !ok {
+				return "false"
+			}
+			return sameTerm(cur, c.loadCell(c.entry, cp))
+		}
 		return "true"
 	}
 	switch f.f.Kind {
@@ -765,7 +835,12 @@ func (e *reflEngine) setValueMatches(f reflField, cur Val, conv func(acc string,
 	case "float":
 		return "true" // float64 -> float32 narrowing is not modelled
 	case "string":
-		return "true" // the Go string is taken from value.Interface().(string) / value.String(): identity of strings not modelled
+		v, ok := e.valueAccessor(r.St, rv, "String", types.Typ[types.String]).(SliceV)
+		cs, ok2 := cur.(SliceV)
+		if ok && ok2 {
+			return and("(= "+cs.Len+" "+v.Len+")", or("(= "+v.Len+" 0)", "(= "+nz2(c.sliceArr(r.St, cs))+" "+nz2(c.sliceArr(r.St, v))+")"))
+		}
+		return "false"
 	case "bytes":
 		v, ok := e.valueAccessor(r.St, rv, "Bytes", types.NewSlice(types.Typ[types.Uint8])).(SliceV)
 		cs, ok2 := cur.(SliceV)
@@ -773,7 +848,16 @@ func (e *reflEngine) setValueMatches(f reflField, cur Val, conv func(acc string,
 			return "(= " + cs.Len + " " + v.Len + ")"
 		}
 	case "message":
-		return "true"
+		// x.F = value.Message().Interface().(*T)
+		mv, ok := e.valueAccessor(r.St, rv, "Message", nil).(IfaceV)
+		cp, ok2 := cur.(PtrV)
+		if !ok || !ok2 {
+			return "false"
+		}
+		if iv, ok := e.ifaces[valRepr(mv)]; ok {
+			return "(= " + cp.Ref + " " + iv.Ref + ")"
+		}
+		return "false"
 	}
 	return "true"
 }
